@@ -107,7 +107,7 @@ def nested(rng, depth=None):
 
 def mapped(rng, err=None):
     """outer: pre -> [inner mapped over a list] -> post ; inner is a small DAG (optionally with a gate)."""
-    inner = gen.gen_dag(rng, n_nodes=(1, 4), n_inputs=(1, 2), p_default_input=0.0, p_default_edge=0.0, p_gen=0.0, p_noout=0.0, name="inner", prefix="m")
+    inner = gen.gen_dag(rng, n_nodes=(1, 4), n_inputs=(1, 2), p_default_input=0.0, p_default_edge=0.0, p_gen=0.0, p_noout=0.0, p_emit=0.25, name="inner", prefix="m")
     from hgmon import ref
 
     ins = gen.consumed_inputs(inner)
